@@ -109,6 +109,28 @@ def sweepLine (bs : List UInt8) : String :=
     | .ok h => s!"h {h}"
     | .error () => "panic-acc"
 
+/-- header word `k` (0 = version … 7 = size_data) replaced by `v` -/
+def setHeaderWord (bs : List UInt8) (k : Nat) (v : Int) : List UInt8 :=
+  if bs.length < 36 then bs else bs.take (4 + 4 * k) ++ bytesOfI32 v ++ bs.drop (8 + 4 * k)
+
+def headerWord (bs : List UInt8) (k : Nat) : Int := (wordsOfBytes (bs.drop 4)).getD k 0
+
+/-- `size` and `swaplen` recomputed from the other header words (wrapping to 32 bits) -/
+def fixSize (bs : List UInt8) : List UInt8 :=
+  let w := headerWord bs
+  let total : Int := 36 + 12 * w 3 + 4 * w 4 + 4 * w 5 + (if w 0 ≥ 4 then 4 * w 5 else 0) + w 6 + w 7
+  setHeaderWord (setHeaderWord bs 1 (total - 16)) 2 (total - 16 - w 7)
+
+/-- all pairs of values for the header words `k1`, `k2`: hash of the `open` lines -/
+def hsweepLine (fix : Bool) (k1 k2 : Nat) (vals : List Int) (bs : List UInt8) : String := Id.run do
+  let mut h := fnvOffset
+  for v1 in vals do
+    for v2 in vals do
+      let m := setHeaderWord (setHeaderWord bs k1 v1) k2 v2
+      let m := if fix then fixSize m else m
+      h := fnvByte (fnvString h (openLine m)) 0xff
+  return s!"h {h}"
+
 def parseWords (bs : List UInt8) : List Int := wordsOfBytes bs
 
 /-- `type.id.hex` -/
@@ -133,6 +155,10 @@ def handle (toks : List String) : String :=
     match parseHex h with
     | some bs => openLine bs
     | none => "bad-op"
+  | ["hsweep", fix, k1, k2, vals, h] =>
+    match parseNat k1, parseNat k2, (vals.splitOn ",").mapM parseInt, parseHex h with
+    | some k1, some k2, some vals, some bs => hsweepLine (fix == "1") k1 k2 vals bs
+    | _, _, _, _ => "bad-op"
   | ["sweep", h] =>
     match parseHex h with
     | some bs => sweepLine bs
